@@ -281,7 +281,7 @@ func c01RowLoop(a *A, f *ssa.Function, ev ssa.Value, wantVals, wantIdents bool) 
 							if s2, ok := rr.(*ssa.Store); ok {
 								if ex, ok := resolve(s2.Val).(*ssa.Extract); ok {
 									if pc, ok := ex.Tuple.(*ssa.Call); ok && pc.Common().StaticCallee() != nil {
-										ap.src = pc.Common().StaticCallee().Name()
+										ap.src = roleName(pc.Common().StaticCallee())
 										if len(pc.Common().Args) == 3 {
 											ap.idxOK = pc.Common().Args[2] == idxVal
 										}
